@@ -219,17 +219,29 @@ var (
 	c20IntVals = []string{"0", "-1", "1", "32", "33", "128", "129", "65535", "65536",
 		"9223372036854775807", c20Missing}
 	c20DurVals  = []string{"0s", "-1s", "1ns", "1s", "2562047h47m16.854775807s", c20Missing}
-	c20SizeVals = []string{"0B", "-1B", "1B", "65535B", "65536B", "2147483647B", "2147483648B",
-		"18446744073709551615B", c20Missing}
+	c20SizeVals = []string{"0B", "-1B", "1B", "65535B", "65536B", "64KB", "65537B", "2147483647B",
+		"2147483648B", "2GB", "18446744073709551615B", c20Missing}
 	c20BoolVals = []string{"true", "false", c20Missing}
 )
 
 // c20ExtraVals are additional values of single fields: small stop / resume
 // thresholds, so that the cross-referenced pair contains (stop, resume) =
 // (4,1), (10,0), (3,1), (2,2), … and the limiter history stays short.
+//
+// Both sides of the documented bounds that are not in the general alphabets:
+// dns.tcp_idle_timeout <= 65535 * 100 ms, check.kv.ttl in [10s, 1d] for consul
+// and >= 1ms for redis.  (Sizes: 65535 B / 65536 B = 64KB / 65537 B for the
+// maximum DNS message, 2^31-1 / 2^31 B = 2GB for the socket buffers; ports
+// 65535 / 65536; key lengths 32 / 33 and 128 / 129 are in the general
+// alphabets.  The 2^31-1 bound of ratelimit.*.count and channel_buffer_size is
+// not approached from below: an accepted 2^31-1 makes the real constructors
+// allocate 16 GiB tables.)
 var c20ExtraVals = map[string][]string{
 	"ratelimit.connection_limit.stop":   {"2", "3", "4", "10"},
 	"ratelimit.connection_limit.resume": {"2"},
+	"dns.tcp_idle_timeout":              {"1h49m13.5s", "1h49m13.6s"},
+	"dns.max_udp_response_size":         {"511B", "512B", "513B", "2048B", "4096B", "4097B"},
+	"check.kv.ttl":                      {"999us", "1ms", "9s", "10s", "24h", "24h0m1s"},
 }
 
 func c20Values(l *c20Leaf) (vals []string) {
@@ -274,9 +286,16 @@ type c20Mut struct {
 // c20Case is one mutated configuration; it fully determines the execution.
 type c20Case struct {
 	Muts []c20Mut `json:"muts"`
+
+	// Variant, if not empty, names a structural variant of the example (see
+	// c20Variants); it is not combined with field changes.
+	Variant string `json:"variant,omitempty"`
 }
 
 func (c c20Case) String() string {
+	if c.Variant != "" {
+		return "config.dist.yaml, variant " + c.Variant + " (" + c20Variants[c.Variant] + ")"
+	}
 	if len(c.Muts) == 0 {
 		return "the unchanged config.dist.yaml"
 	}
@@ -306,6 +325,17 @@ type c20World struct {
 
 // c20Apply returns the mutated YAML text.
 func (w *c20World) apply(c c20Case) (text string, err error) {
+	if c.Variant != "" {
+		if len(c.Muts) > 0 {
+			return "", fmt.Errorf("variant %q combined with field changes", c.Variant)
+		}
+		lines, verr := c20ApplyVariant(w.lines, c.Variant)
+		if verr != nil {
+			return "", verr
+		}
+
+		return strings.Join(lines, "\n") + "\n", nil
+	}
 	lines := append([]string{}, w.lines...)
 	drop := map[int]bool{}
 	for _, m := range c.Muts {
@@ -334,6 +364,72 @@ func (w *c20World) apply(c c20Case) (text string, err error) {
 	}
 
 	return sb.String(), nil
+}
+
+// c20Variants are structural variants of the example that doc/configuration.md
+// allows ("The tls object is optional unless the servers array contains at
+// least one item with an encrypted protocol").
+var c20Variants = map[string]string{
+	"plain-dns-only-group-without-tls":  "the server group keeps only its plain-DNS server, its tls section is removed",
+	"extra-plain-dns-group-without-tls": "a second server group with one plain-DNS server and no tls section is added",
+}
+
+// c20ApplyVariant returns the lines of the example changed to the variant.
+func c20ApplyVariant(base []string, name string) (lines []string, err error) {
+	find := func(from int, prefix string) int {
+		for i := from; i < len(base); i++ {
+			if strings.HasPrefix(base[i], prefix) {
+				return i
+			}
+		}
+
+		return -1
+	}
+	sg := find(0, "server_groups:")
+	tls := find(sg, "    tls:")
+	servers := find(sg, "    servers:")
+	dot := find(servers, "      - name: 'default_dot'")
+	prof := find(servers, "    profiles_enabled:")
+	if sg < 0 || tls < 0 || servers < tls || dot < servers || prof < dot {
+		return nil, fmt.Errorf("variant %s: unexpected layout of config.dist.yaml", name)
+	}
+	switch name {
+	case "plain-dns-only-group-without-tls":
+		lines = append(lines, base[:tls]...)
+		lines = append(lines, base[servers:dot]...)
+		lines = append(lines, base[prof:]...)
+	case "extra-plain-dns-group-without-tls":
+		lines = append(lines, base[:prof+1]...)
+		lines = append(lines,
+			"  - name: 'verif_plain_group'",
+			"    filtering_group: 'default'",
+			"    ddr:",
+			"        enabled: false",
+			"    servers:",
+			"      - name: 'verif_plain_dns'",
+			"        protocol: 'dns'",
+			"        linked_ip_enabled: false",
+			"        bind_addresses:",
+			"          - '127.0.0.1:5354'",
+			"    profiles_enabled: false",
+		)
+		lines = append(lines, base[prof+1:]...)
+	default:
+		return nil, fmt.Errorf("unknown variant %q", name)
+	}
+
+	return lines, nil
+}
+
+func (w *c20World) genVariants(emit func(c20Case)) {
+	names := make([]string, 0, len(c20Variants))
+	for n := range c20Variants {
+		names = append(names, n)
+	}
+	sort.Strings(names)
+	for _, n := range names {
+		emit(c20Case{Variant: n})
+	}
 }
 
 // ---------------------------------------------------------------------------
@@ -635,6 +731,9 @@ func (w *c20World) sameRejection(c c20Case, errText string) bool {
 }
 
 func c20Field(c c20Case) string {
+	if c.Variant != "" {
+		return "structure." + c.Variant
+	}
 	if len(c.Muts) == 0 {
 		return "baseline"
 	}
@@ -922,6 +1021,8 @@ func TestVerifC20(t *testing.T) {
 	r.Bound("values_duration", c20DurVals)
 	r.Bound("values_size", c20SizeVals)
 	r.Bound("cross_referenced_pairs", len(c20CrossRefs))
+	r.Bound("extra_values", c20ExtraVals)
+	r.Bound("structural_variants", len(c20Variants))
 	r.Bound("deviations", vrt.Pick(r, "1 field; 2 cross-referenced fields", "1 field; 2 cross-referenced fields; any 2 fields of one section (full alphabet); any 2 fields of different sections (reduced alphabet: zero, smallest positive, largest, missing)"))
 	r.Note("mutated fields: %s", strings.Join(names, " "))
 
@@ -950,6 +1051,7 @@ func TestVerifC20(t *testing.T) {
 		return w.runCase(r, c)
 	}
 	vrt.Part(r, "single", w.genSingles, run)
+	vrt.Part(r, "structure", w.genVariants, run)
 	vrt.Part(r, "crossref", w.genCross, run)
 	if r.Thorough() {
 		vrt.Part(r, "section-pairs", w.genSectionPairs, run)
